@@ -45,6 +45,73 @@ impl SrcShrinker {
     }
 }
 
+/// Layout-preserving shrinking: blank out aligned ranges of tokens (their text becomes spaces, line breaks stay), from
+/// halves of the file down to single tokens.  Only candidates the reference parser still accepts are produced.
+pub struct TokenBlanker {
+    src: String,
+    /// (start, end) byte range of every code token
+    toks: Vec<(usize, usize)>,
+    /// (first token, one-past-last token) of every candidate range
+    ranges: Vec<(usize, usize)>,
+}
+
+impl TokenBlanker {
+    pub fn new(src: &str) -> Option<TokenBlanker> {
+        let lx = crate::reflua::lexer::lex(src, true).ok()?;
+        let toks: Vec<(usize, usize)> = lx.tokens.iter().filter(|t| t.kind != crate::reflua::lexer::Tk::Eof).map(|t| (t.start, t.end)).collect();
+        let n = toks.len();
+        let mut ranges = vec![];
+        let mut size = n / 2;
+        while size >= 1 {
+            let mut i = 0;
+            while i < n {
+                ranges.push((i, (i + size).min(n)));
+                i += size;
+            }
+            if size == 1 {
+                break;
+            }
+            size = (size + 1) / 2;
+            if ranges.len() > 6000 {
+                break;
+            }
+        }
+        Some(TokenBlanker { src: src.to_string(), toks, ranges })
+    }
+    pub fn count(&self) -> usize {
+        self.ranges.len()
+    }
+    pub fn candidate(&self, i: usize) -> Option<String> {
+        let (a, b) = *self.ranges.get(i)?;
+        if a >= b {
+            return None;
+        }
+        let start = self.toks[a].0;
+        let end = self.toks[b - 1].1;
+        let mut out = String::with_capacity(self.src.len());
+        out.push_str(&self.src[..start]);
+        let mut any = false;
+        for c in self.src[start..end].chars() {
+            if c == '\n' || c == '\r' {
+                out.push(c);
+            } else {
+                if !c.is_whitespace() {
+                    any = true;
+                }
+                out.push(' ');
+            }
+        }
+        out.push_str(&self.src[end..]);
+        if !any {
+            return None;
+        }
+        if parse_block(&out, Mode::Luau).is_err() {
+            return None;
+        }
+        Some(out)
+    }
+}
+
 /// all single-step simplifications of `src` (bounded); empty when `src` does not parse
 pub fn shrink_source(src: &str, cap: usize) -> Vec<String> {
     let Ok(block) = parse_block(src, Mode::Luau) else { return line_shrinks(src, cap) };
